@@ -95,7 +95,11 @@ class FilterExpression(Expression):
         if isinstance(expression, PrefixExpression):
             operand = self._canonical_string(expression.right, PRECEDENCE_PREFIX)
             expr = f"!{operand}"
-            return f"({expr})" if parent_precedence > PRECEDENCE_PREFIX else expr
+            return f"({expr})" if parent_precedence >= PRECEDENCE_PREFIX else expr
+
+        if isinstance(expression, ComparisonExpression):
+            expr = str(expression)
+            return f"({expr})" if parent_precedence >= PRECEDENCE_PREFIX else expr
 
         return str(expression)
 
@@ -173,6 +177,8 @@ class PrefixExpression(Expression):
         super().__init__(token)
 
     def __str__(self) -> str:
+        if isinstance(self.right, (ComparisonExpression, PrefixExpression)):
+            return f"{self.operator}({self.right})"
         return f"{self.operator}{self.right}"
 
     def __eq__(self, other: object) -> bool:
